@@ -114,6 +114,18 @@ def gen_case(rng, i):
         b = {"names": [0], "shape": list(sb), "dtype": "float64", "kind": "float", "as": gen.choice(rng, ["poly", "ndarray", "scalar"]) if not sb else gen.choice(rng, ["poly", "ndarray"]),
              "terms": [[[0], [coef_json(gen.choice(rng, [Fraction(1), Fraction(-2), Fraction(1, 2), Fraction(4), Fraction(0)] if size > 1 else [Fraction(1), Fraction(-2), Fraction(1, 2), Fraction(4)])) for _ in range(size)]]]}
     a = gen_poly_struct(rng, names, sa, int(rng.integers(1, 5)), 3)
+    if mode in ("general", "constant", "univariate", "array") and rng.random() < .2:
+        # integer operands with large odd coefficients and a divisor whose leading coefficients are +-1, +-2, +-4: quotient
+        # and remainder have halves / quarters next to values of 1e5 - 1e6 (seeded change C05-14: results of integer input
+        # were rounded to whole numbers when "close" under allclose's relative tolerance)
+        for t in a["terms"]:
+            t[1] = [coef_json(Fraction(0) if coef_from_json(x) == 0 else Fraction(int(rng.integers(50000, 500000)) * 2 + 1) * (1 if coef_from_json(x) > 0 else -1))
+                    for x in t[1]]
+        a["dtype"], a["kind"] = "int64", "int"
+        for t in b["terms"]:
+            t[1] = [coef_json(coef_from_json(x) * 2) for x in t[1]]
+        if all(coef_from_json(x).denominator == 1 for t in b["terms"] for x in t[1]):
+            b["dtype"], b["kind"] = "int64", "int"
     c = {"id": i, "kind": "c05", "mode": mode, "a": a, "b": b}
     if mode == "exact":
         cof = gen_poly_struct(rng, names, sa, int(rng.integers(1, 3)), 2)
